@@ -146,7 +146,7 @@ def r2(ctx, cfg):
             o = peel(P.rvalue(f, st["rv"], (bid, i)))
             if o[0] == "agg" and o[1].endswith("Result::Ok"):
                 n_ok += 1
-                conds = q.dominating_conditions(P, f, bid)
+                conds = q.inherited_conditions(P, f, bid)      # (the decoding may sit in a helper handing back an Option)
                 decoded = any(c[0] == "variant_in" and c[2] == ("Ok",) and peel(c[1])[0] == "call" and peel(c[1])[1] == "bech32::primitives::decode::CheckedHrpstring::new"
                               and is_param(peel(c[1])[2][0], "input") for e, c in conds)
                 def _is_hrp(x):
